@@ -45,8 +45,17 @@ Qed.
 Lemma gtiny_le_R b : gtiny_le Rn 0 b = Rleb b 0.
 Proof. reflexivity. Qed.
 
+(** [gsum] is the left fold from the first element (NumPy's order); over R it is [sumR] (a right fold
+    ending in 0) by associativity and commutativity of the addition. *)
+Lemma fold_left_add_R (t : list R) (acc : R) : fold_left (add Rn) t acc = acc + sumR t.
+Proof.
+  revert acc. induction t as [|y t IH]; intros acc; cbn [fold_left sumR].
+  - lra.
+  - rewrite IH. change (add Rn acc y) with (acc + y). lra.
+Qed.
+
 Lemma gsum_R (l : list R) : gsum Rn l = sumR l.
-Proof. induction l as [|x t IH]; cbn [gsum sumR]; [reflexivity|]. rewrite IH. reflexivity. Qed.
+Proof. destruct l as [|x t]; cbn [gsum sumR]; [reflexivity|]. apply fold_left_add_R. Qed.
 
 (** ---- penalise_savings ---- *)
 Lemma ginsert_desc_R (x : R) (l : list R) : ginsert_desc Rn x l = insert_descR x l.
